@@ -54,11 +54,13 @@ def run_real(template, tmpl: dict, plan: list, handler_cfg) -> dict:
     return res
 
 
-def run_model(tmpl: dict, plan: list, handler_cfg, case_once=True) -> dict:
+def run_model(tmpl: dict, plan: list, handler_cfg, case_once=True,
+              guard_tags=True) -> dict:
     handler = None
     if handler_cfg is not None:
         handler = Handler(handler_cfg.get("fail_with"))
-    m = Model(tmpl, plan, handler, case_once=case_once)
+    m = Model(tmpl, plan, handler, case_once=case_once,
+              guard_tags=guard_tags)
     res = m.run()
     if res["out"] is not None:
         res["out"] = norm_out(res["out"])
